@@ -558,40 +558,74 @@ func derivesFromField(v ssa.Value, fld *types.Var) bool {
 // false (true) edge of that branch is infeasible after `site`.
 func flagInfeasibleEdges(fn *ssa.Function, site ssa.Instruction) []Edge {
 	var out []Edge
-	for _, i := range Ifs(fn) {
-		phi, ok := i.Cond.(*ssa.Phi)
-		if !ok || !isBoolType(phi.Type()) {
-			continue
+	reachBlock := map[*ssa.BasicBlock]bool{}
+	reaches := func(p *ssa.BasicBlock) bool {
+		if v, ok := reachBlock[p]; ok {
+			return v
 		}
-		// preds of the phi block reachable from site, and their phi values
-		all := true
-		var val *bool
-		any := false
+		v := p == site.Block() || ReachAfter(site, func(in ssa.Instruction) bool { return in.Block() == p }, nil) != nil
+		reachBlock[p] = v
+		return v
+	}
+	// valAfter: the constant boolean value of v on every path that has passed `site` (0 unknown, 1 true, 2 false, 3 no information / self)
+	var valAfter func(v ssa.Value, seen map[ssa.Value]bool) int
+	valAfter = func(v ssa.Value, seen map[ssa.Value]bool) int {
+		if k, ok := v.(*ssa.Const); ok && k.Value != nil {
+			if k.Value.String() == "true" {
+				return 1
+			}
+			return 2
+		}
+		phi, ok := v.(*ssa.Phi)
+		if !ok {
+			return 0
+		}
+		if seen[v] {
+			return 3
+		}
+		seen[v] = true
+		res := 3
 		for pi, p := range phi.Block().Preds {
-			reach := p == site.Block() || ReachAfter(site, func(in ssa.Instruction) bool { return in.Block() == p }, nil) != nil
-			if !reach {
+			if !reaches(p) {
 				continue
 			}
-			any = true
-			k, ok := phi.Edges[pi].(*ssa.Const)
-			if !ok || k.Value == nil {
-				all = false
-				break
+			// an edge whose source block is reachable from site only by first leaving through this very phi (loop) is handled by recursion
+			x := valAfter(phi.Edges[pi], seen)
+			if x == 3 {
+				continue
 			}
-			b := k.Value.String() == "true"
-			if val != nil && *val != b {
-				all = false
-				break
+			if x == 0 {
+				return 0
 			}
-			val = &b
+			if res == 3 {
+				res = x
+			} else if res != x {
+				return 0
+			}
 		}
-		if !any || !all || val == nil {
+		return res
+	}
+	for _, i := range Ifs(fn) {
+		v, pos := BoolTest(i.Cond)
+		if _, ok := v.(*ssa.Phi); !ok {
 			continue
 		}
-		if *val {
-			out = append(out, Edge{i.Block(), 1})
-		} else {
-			out = append(out, Edge{i.Block(), 0})
+		if !reaches(i.Block()) {
+			continue
+		}
+		switch valAfter(v, map[ssa.Value]bool{}) {
+		case 1: // v is true after site
+			if pos {
+				out = append(out, Edge{i.Block(), 1})
+			} else {
+				out = append(out, Edge{i.Block(), 0})
+			}
+		case 2:
+			if pos {
+				out = append(out, Edge{i.Block(), 0})
+			} else {
+				out = append(out, Edge{i.Block(), 1})
+			}
 		}
 	}
 	return out
